@@ -156,7 +156,8 @@ Fixpoint fill (limit : N) (buf rest : table) : table * table * bool :=
 
 Fixpoint wr_loop (fuel : nat) (target : N) (written : bool) (buf rest : table) : list table :=
   match fuel with
-  | O => [buf ++ rest]   (* unreachable for target >= 1; a target of 0 makes the real loop spin for ever *)
+  | O => (* unreachable for target >= 1 (a target of 0 makes the real loop spin for ever): flush everything *)
+      match buf ++ rest with [] => if written then [] else [[]] | l => [l] end
   | S f =>
       let '(b1, rest1, ended1) := fill target buf rest in
       if ended1 then
